@@ -6,12 +6,12 @@ import core, sx, shapes
 from core import hbump
 
 
-def make_shapes(tier, seed, features=(), extra_random=None):
+def make_shapes(tier, seed, features=(), extra_random=None, extra=()):
     rnd = random.Random(seed * 7919 + 13)
     cat = shapes.catalogue(features)
     nrand = extra_random if extra_random is not None else (12 if tier == 'quick' else 60)
     rs = [shapes.random_shape(rnd, 0, features) for _ in range(nrand)]
-    return shapes.name_shapes(cat + rs)
+    return shapes.name_shapes(cat + rs + list(extra))
 
 
 def build(res, tier, seed, features, with_setters=False, shapes_list=None, profile='release'):
@@ -60,6 +60,14 @@ def pair_classes(sh, rnd):
             b[i + 1] = ['l'] + [5] * cb + ob
             f = shapes.follower_of(sh, a, rnd) if rnd.random() < 0.7 else a
             return a, b, f, 'multiplicity'
+    if sh['t'] == 'enum' and rnd.random() < 0.3:
+        # same variant, another payload: a derived `==` has to look inside the variant
+        for _ in range(30):
+            b = shapes.enum_same_variant(sh, a, rnd)
+            if b is not None: break
+            a = shapes.gen_value(sh, rnd)
+        if b is not None:
+            return a, b, foreign_or_follower(sh, a, b, rnd), 'same-variant'
     r = rnd.random()
     if r < 0.30:
         b = shapes.gen_value(sh, rnd); cls = 'random'
@@ -76,8 +84,19 @@ def pair_classes(sh, rnd):
         b = a; cls = 'identical'
     else:
         b = shapes.mutate_value(sh, a, rnd, 0.8); cls = 'heavy'
-    f = shapes.follower_of(sh, a, rnd) if rnd.random() < 0.7 else a
-    return a, b, f, cls
+    return a, b, foreign_or_follower(sh, a, b, rnd), cls
+
+
+def foreign_or_follower(sh, a, b, rnd):
+    """the third value of a request: the base the diff(a, b) is ALSO applied to. Usually a follower of a (equivalent, not
+    identical: C02); for types made of plain / nested-plain fields, where a diff may be applied to any value (C06), also
+    a base that is `==` to the TARGET but rendered differently (float zeros of the other sign) or an unrelated value"""
+    if shapes.plain_only(sh) and rnd.random() < 0.3:
+        f = shapes.flip_zeros(sh, b)
+        if f != b and rnd.random() < 0.8:
+            return f
+        return shapes.gen_value(sh, rnd)
+    return shapes.follower_of(sh, a, rnd) if rnd.random() < 0.7 else a
 
 
 def pair_requests(shs, tier, seed, per_shape=None):
@@ -375,6 +394,15 @@ def evaluate_pairs(res, shs, reqs, rows, model_out, want):
                     if mm: fails.append(('C13', f'recursive map field f{j} ({fld["mode"]}): ' + mm))
                 else:
                     fails.append(('C13', 'apply panicked'))
+                # the borrowed comparison (diff_ref) is the same function called by separately generated code
+                if not opaque and same == (j in [e[0] for e in cdr]):
+                    fails.append(('C13', f'recursive map field f{j} ({fld["mode"]}), diff_ref: diff ' + ('present although the maps are equal in the sense of the mode' if same else 'absent although the maps differ')))
+                apr = sx.field(r, 'applyrefd')[0]
+                if apr != 'panic':
+                    mm = match_field(fld, a[j + 1], b[j + 1], apr[j + 1], False)
+                    if mm: fails.append(('C13', f'recursive map field f{j} ({fld["mode"]}), diff_ref converted and applied: ' + mm))
+                else:
+                    fails.append(('C13', 'apply of the converted diff_ref panicked'))
                 ent = [e for e in cd if e[0] == j]
                 if ent:
                     hbump(res, 'recmap-repr:' + ent[0][2][0])
